@@ -639,6 +639,58 @@ def oracle_companion(ctx, rng):
                 ctx.fail("companion:corruption-accepted", {"pos": pos}, [p[:8].hex() for p in nonempty], "subsequence of sent payloads", "corrupted Companion stream delivered altered plaintext")
 
 
+def oracle_mrp(ctx, rng):
+    """Encrypted MRP stream from an independent peer, every 1-cut (sampled in quick) and
+    random multi-cuts: the messages delivered are exactly the messages sent."""
+    from cryptography.hazmat.primitives.ciphers.aead import ChaCha20Poly1305
+    from pyatv.protocols.mrp.connection import MrpConnection
+    from pyatv.protocols.mrp import messages, protobuf
+    from pyatv.support.variant import write_variant
+    from harness.core.prng import split_at
+
+    peer = ChaCha20Poly1305(KEY_IN)
+    plain = [messages.create(protobuf.GENERIC_MESSAGE, identifier="m%d" % i + "y" * n).SerializeToString()
+             for i, n in enumerate([0, 90, 128, 300, 5, 17000, 1])]
+    wire = b""
+    for i, p in enumerate(plain):
+        ct = peer.encrypt(b"\x00" * 4 + i.to_bytes(8, "little"), p, None)
+        wire += write_variant(len(ct)) + ct
+    n = len(wire)
+    near = set()
+    pos = 0
+    for i, p in enumerate(plain):  # cut points around every message boundary
+        ln = len(write_variant(len(p) + 16)) + len(p) + 16
+        for d in range(-4, 5):
+            near.update([pos + d, pos + ln + d])
+        pos += ln
+    cutsets = [[c] for c in (range(1, n) if ctx.thorough else sorted(c for c in near | set(rng.sample(range(1, n), 200)) if 0 < c < n))]
+    cutsets += [rng.cuts(n, rng.choice([2, 3, 8])) for _ in range(ctx.scale(100, 1000))]
+    for cuts in [[]] + cutsets:
+        got = []
+
+        class L:
+            def message_received(self, parsed, raw):
+                got.append(bytes(raw))
+
+            def stop(self):
+                pass
+
+        keep = L()
+        c = MrpConnection("h", 0, None)
+        c.listener = keep
+        c.enable_encryption(KEY_OUT, KEY_IN)
+        try:
+            for chunk in split_at(wire, cuts):
+                c.data_received(chunk)
+        except Exception as e:  # noqa: BLE001
+            got.append(("exc:" + type(e).__name__).encode())
+        ctx.case(["mrp-oracle-recv", cuts], bool(cuts))
+        if got != plain:
+            ctx.fail("mrp:segmentation", {"cuts": cuts}, "%d of %d messages delivered correctly" % (sum(1 for a, b in zip(got, plain) if a == b), len(plain)),
+                     "every message delivered exactly once, in order", "encrypted MRP stream decoded differently when split")
+            break
+
+
 def oracle_audio(ctx, rng):
     from cryptography.hazmat.primitives.ciphers.aead import ChaCha20Poly1305
     from pyatv.protocols.raop.protocols.airplayv2 import AirPlayV2
@@ -732,4 +784,5 @@ def run(ctx):
 
     oracle_hap(ctx, rng.fork("oracle-hap"))
     oracle_companion(ctx, rng.fork("oracle-comp"))
+    oracle_mrp(ctx, rng.fork("oracle-mrp"))
     oracle_audio(ctx, rng.fork("oracle-audio"))
